@@ -74,6 +74,27 @@ func (s *boardSession) run() {
 	wAdj := 1
 	pReverse := t.Choose(10) // out of 10: take back own last move by playing it backwards (repetitions)
 	pSpecial := t.Choose(8)  // out of 10: prefer captures / castling / promotions / double steps
+	// "quiet walk": after a short prefix of special moves (en passant, castling, captures), a long run of
+	// quiet moves to positions not seen before, so that the fifty-move clock reaches 100 with no
+	// repetition in the way: the only way to see a clock that is off by one after a special move.
+	quietAfter := -1
+	if t.Chance(1, 6) {
+		quietAfter = t.Choose(8)
+		nOps = t.Range(110, 320)
+		wPop, wFork, wDrop, wIllegal = 0, 0, 0, 0
+		pSpecial, pReverse = 10, 0
+		if t.Chance(2, 3) {
+			// start where an en-passant capture or castling is at hand
+			var idx []int
+			for i, st := range Starts {
+				if st.Tag == "ep" || st.Tag == "castle" {
+					idx = append(idx, i)
+				}
+			}
+			si = idx[t.Choose(len(idx))]
+		}
+		s.res.Probe("quiet-walk")
+	}
 
 	s.zt = board.NewZobristTable(ztSeed)
 	s.start = Starts[si].FEN
@@ -133,6 +154,9 @@ func (s *boardSession) run() {
 		switch op {
 		case 0: // push(legal)
 			m := s.pickMove(l, legal, pReverse, pSpecial)
+			if quietAfter >= 0 && i >= quietAfter {
+				m = s.pickQuiet(l, legal)
+			}
 			rm, ok := bridge.FindRepoMove(l.b.Position(), l.b.Turn(), m)
 			if !ok {
 				s.res.Discarded = fmt.Sprintf("generator does not emit legal move %s in %s", m.UCI(), l.cur.FEN4())
@@ -300,6 +324,32 @@ func (s *boardSession) pickMove(l *live, legal []rules.Move, pReverse, pSpecial 
 		}
 	}
 	return legal[t.Choose(len(legal))]
+}
+
+// pickQuiet prefers a quiet move (no capture, no pawn move) to a position this game has not seen.
+func (s *boardSession) pickQuiet(l *live, legal []rules.Move) rules.Move {
+	seen := map[rules.Pos]bool{}
+	for _, p := range l.g.Line() {
+		seen[p] = true
+	}
+	var fresh, quiet []rules.Move
+	for _, m := range legal {
+		in := l.cur.Describe(m)
+		if in.Capture != rules.Empty || in.Piece == rules.Pawn {
+			continue
+		}
+		quiet = append(quiet, m)
+		if !seen[l.cur.Make(m)] {
+			fresh = append(fresh, m)
+		}
+	}
+	switch {
+	case len(fresh) > 0:
+		return fresh[s.t.Choose(len(fresh))]
+	case len(quiet) > 0:
+		return quiet[s.t.Choose(len(quiet))]
+	}
+	return legal[s.t.Choose(len(legal))]
 }
 
 func (s *boardSession) probeMove(l *live, in rules.Info, m rules.Move) {
